@@ -853,6 +853,42 @@ func analyseDefaultIV(dir string) (writes []string) {
 
 // ---------- byteslicepool ----------
 
+// bspPoolCallers: which functions of byteslicepool.go hand a slice to the pool (call `….Put(…)`)
+// and which take one out (call `….pool.Get()`).
+func bspPoolCallers(path string) (puts, gets []string) {
+	f := parseFile(path)
+	for _, d := range f.Decls {
+		fd, ok := d.(*ast.FuncDecl)
+		if !ok || fd.Body == nil {
+			continue
+		}
+		p, g := false, false
+		ast.Inspect(fd.Body, func(m ast.Node) bool {
+			if c, ok := m.(*ast.CallExpr); ok {
+				if se, ok := c.Fun.(*ast.SelectorExpr); ok {
+					switch se.Sel.Name {
+					case "Put":
+						p = true
+					case "Get":
+						g = true
+					}
+				}
+			}
+			if _, ok := m.(*ast.GoStmt); ok {
+				die(m.Pos(), "goroutine started in byteslicepool.%s", fd.Name.Name)
+			}
+			return true
+		})
+		if p {
+			puts = append(puts, fd.Name.Name)
+		}
+		if g {
+			gets = append(gets, fd.Name.Name)
+		}
+	}
+	return
+}
+
 func analyseBsp(path string) string {
 	f := parseFile(path)
 	for _, d := range f.Decls {
@@ -984,6 +1020,7 @@ func main() {
 	lockFacts := analyseLogger(filepath.Join(*repo, "logger"))
 	pw, lw, valueRecv, pmethods := analyseCron(filepath.Join(*repo, "cron"))
 	zeroTo := analyseBsp(filepath.Join(*repo, "byteslicepool/byteslicepool.go"))
+	bspPuts, bspGets := bspPoolCallers(filepath.Join(*repo, "byteslicepool/byteslicepool.go"))
 	ivWrites := analyseDefaultIV(filepath.Join(*repo, "crypto/aeskw"))
 
 	var b strings.Builder
@@ -1031,6 +1068,7 @@ func main() {
 	fmt.Fprintf(&b, "/-- every method of `cron.Parser` has a value receiver (it works on a copy) -/\ndef parserValueReceivers : Bool := %v\ndef parserMethods : List String := %s\n\n", valueRecv, leanStrs(pmethods))
 	fmt.Fprintf(&b, "/-- uses of the package-level byte slice `aeskw.defaultIV` other than reading it (copy source, comparison operand) -/\ndef aeskwDefaultIVWrites : List String := %s\n\n", leanStrs(ivWrites))
 	fmt.Fprintf(&b, "/-- how far `ByteSlicePool.Get` clears a recycled slice -/\ndef bspZeroTo : ZeroTo := .%s\n\n", zeroTo)
+	fmt.Fprintf(&b, "/-- the functions of byteslicepool.go that hand a slice to the pool / take one out of it -/\ndef bspPutCallers : List String := %s\ndef bspGetCallers : List String := %s\n\n", leanStrs(bspPuts), leanStrs(bspGets))
 	b.WriteString("end Kit.Generated.C08\n")
 	if *out == "" {
 		fmt.Print(b.String())
